@@ -7,6 +7,8 @@ import Qfx.Lemmas.CodecParseD
 import Qfx.Lemmas.CodecTotal
 import Qfx.Lemmas.CodecBody
 import Qfx.Lemmas.CodecXml
+import Qfx.Lemmas.CodecDictSegs
+import Qfx.Lemmas.CodecDictExample
 open Qfx Qfx.Spec
 
 /-- the field extracted from a buffer is exactly the bytes up to and including the first SOH; the rest is what follows -/
@@ -198,6 +200,41 @@ theorem C11_faithful_dict_nogroups (fx : Fixes) (d : Dicts) (t8 t9 t35 : TagValu
   rw [hsec]
   exact getBytes_view _ _ _ j tv hfind hj
 
+/-- WITH DICTIONARIES, MESSAGES WITH ANY NUMBER OF REPEATING GROUPS (fixed code): the wire
+    `8, 9, 35, (plain…, G=<n>, <members>, z)…, plain…, 10` — every run `Seg` = plain fields, the count field of a group `G` of the
+    message type, its member fields in any arrangement of two nesting levels (`Walk2`), a plain body field `z` behind it that belongs to
+    no level of the group — parses; `Message.fields` is the wire's field list in order (members included), `Bytes()` is the wire, and every
+    group whose tag is not set again later is found in the body as the field holding exactly its count field and member fields. -/
+theorem C11_faithful_dict_groups (d : Dicts) (mt : Bytes) (t8 t9 t35 t10 : TagValue) (segs : List Seg) (post : List TagValue)
+    (hw8 : IsWire t8) (hw9 : IsWire t9) (hw35 : IsWire t35) (hw10 : IsWire t10)
+    (h8 : t8.tag = 8) (h9 : t9.tag = 9) (h35 : t35.tag = 35) (h10 : t10.tag = 10) (hv : t35.value = mt)
+    (hsegs : ∀ s ∈ segs, SegOK d mt s) (hpost : PlainFields d post)
+    (hng10 : NoGroupTag d 10) (hh10 : isHeaderField d 10 = false)
+    (hbl : atoi t9.value = .ok ((fieldsLength (t8 :: t9 :: t35 :: (segs.flatMap Seg.flat ++ (post ++ [t10]))) : Nat) : Int)) :
+    ∃ m, parseMessage Fixes.cur d (wireOf (t8 :: t9 :: t35 :: (segs.flatMap Seg.flat ++ (post ++ [t10])))) = .ok m ∧
+      m.fields = t8 :: t9 :: t35 :: (segs.flatMap Seg.flat ++ (post ++ [t10])) ∧
+      m.bytes Fixes.cur = .ok (wireOf (t8 :: t9 :: t35 :: (segs.flatMap Seg.flat ++ (post ++ [t10]))), m) ∧
+      ∀ (A : List Seg) (s : Seg) (B : List Seg), segs = A ++ s :: B →
+        (∀ tv ∈ s.z0 :: (B.flatMap Seg.adds ++ post), tv.tag ≠ s.g0.tag) →
+        ∃ f, alFind m.body.lookup s.g0.tag = some f ∧ f.items m.fields = s.g0 :: s.M := by
+  obtain ⟨m, hparse, hfields, hraw, hgrp⟩ := parse_dict_segs (d := d) t8 t9 t35 t10 segs post hw8 hw9 hw35 hw10 h8 h9 h35 h10 hv hsegs hpost
+    hng10 hh10 hbl
+  refine ⟨m, hparse, hfields, by simp [Message.bytes, hraw], ?_⟩
+  intro A s B hsplit huniq
+  refine ⟨_, hgrp A s B hsplit huniq, ?_⟩
+  rw [hfields, hsplit]
+  have hL : t8 :: t9 :: t35 :: ((A ++ s :: B).flatMap Seg.flat ++ (post ++ [t10])) =
+      (t8 :: t9 :: t35 :: (A.flatMap Seg.flat ++ s.pre)) ++ ((s.g0 :: s.M) ++ (s.z0 :: (B.flatMap Seg.flat ++ (post ++ [t10])))) := by
+    simp [Seg.flat, List.flatMap_append]
+  have e : 3 + (A.flatMap Seg.flat).length + s.pre.length = (t8 :: t9 :: t35 :: (A.flatMap Seg.flat ++ s.pre)).length := by
+    simp; omega
+  have e2 : 1 + s.M.length = (s.g0 :: s.M).length := by simp; omega
+  simp only [Field.items]
+  rw [hL, e, List.drop_left, e2, List.take_left]
+
+/-! non-vacuity of `SegOK` (a run with a two-entry NoPartyIDs group, nested NoPartySubIDs): Qfx/Lemmas/CodecDictExample.lean -/
+example := @exSegOK
+
 /-- `bodyBytes` (what the resend rebuild `buildWithBodyBytes` re-emits; byte layer of C03): for a wire message whose fields come as
     8, 9, 35, further header fields (at least one), body fields (at least one), trailer fields, 10 — parsed without dictionary —
     `Message.bodyBytes` is exactly the bytes of the body fields: it starts behind the last header field and ends in front of
@@ -301,8 +338,9 @@ example : (extractField [56, 61, 70, 1, 57, 61, 53, 1]).1 = [57, 61, 53, 1] := b
 /- Clause checklist (properties.jsonl C11):
    "parsing succeeds … every field retrievable … order preserved … raw bytes unchanged"   no dictionary: C11_faithful_nodict,
         C11_retrievable_nodict; app / transport+app dictionaries, messages without dictionary groups: C11_faithful_dict_nogroups;
-        XMLData with its length (any dictionaries without groups): C11_faithful_xml; dictionary groups: C13_dict_flat_group_*;
-        nested dictionary groups: C11_faithful_full, C11_retrievable_full (monitor)
+        XMLData with its length (any dictionaries without groups): C11_faithful_xml; any number of dictionary groups with up to two
+        nesting levels, plain fields between: C11_faithful_dict_groups (one group: C13_dict_flat_group_*, C13_dict_depth2_group_*);
+        deeper nesting, adjacent groups: C11_faithful_full, C11_retrievable_full (monitor)
         (monitor clauses accepts_wf, fields_faithful, parsed_sections, retrievable, raw_unchanged); field slicing: C11_extractField_slices
    "first three fields are not 8, 9, 35 … rejected"                                          C11_rejects_order
    (byte layer of C03: bodyBytes)                                                             C11_bodyBytes_nodict
